@@ -31,6 +31,11 @@ def hostile(rnd):
     lvl = m['level']
     if rnd.random() < 0.3:
         m['size'] = rnd.choice([2 ** 32 - 1, 2 ** 31, 0])
+    if lvl and m.get('exts') and rnd.random() < 0.25:
+        # the same extended header type more than once (replacement of strings the header already owns)
+        for _ in range(rnd.choice([1, 2, 3])):
+            t, d = rnd.choice(m['exts'])
+            m['exts'].insert(rnd.randrange(len(m['exts']) + 1), (t, d[:rnd.randrange(len(d) + 1)] if rnd.random() < 0.5 else d + b'x' * rnd.randrange(4)))
     if rnd.random() < 0.2 and lvl:
         m['os'] = ord('m')                    # MacBinary look-ahead
         m['data'] = bytes(rnd.choice([0, 0, 1, rnd.randrange(256)]) for _ in range(rnd.choice([127, 128, 129, 300])))
